@@ -345,6 +345,8 @@ func show(b *strings.Builder, v reflect.Value) {
 			b.WriteString("(op 1)")
 		case reflect.String:
 			b.WriteString("(op 2)")
+		case reflect.Pointer: // ErrUser (*errors.errorString) in an error-typed field
+			b.WriteString("(op 1)")
 		default:
 			b.WriteString("(op iface:unknown)")
 		}
